@@ -54,6 +54,9 @@ func gen(r *vh.Rand, tier string) []string {
 	var out []string
 	for i := 0; i < n; i++ {
 		out = append(out, a07ammo.GenURICase(r))
+		out = append(out, a07ammo.GenURIPostCase(r))
+		out = append(out, a07ammo.GenRawCase(r))
+		out = append(out, a07ammo.GenJSONCase(r))
 	}
 	return out
 }
